@@ -1,5 +1,23 @@
 import Qsx.Model.Wire
+import Qsx.Model.Driver
 open Qsx
+
+def pBool : P Bool := do let n ← pNat; pure (n != 0)
+
+/-- `solveFail fstatus iter cstat rstat x y infeasFail bfail bstatus getFail x2 y2` -/
+def pStage (cx : Ctx) : P Stage := do
+  let solveFail ← pBool; let fstatus ← pNat; let iter ← pNat
+  let cs ← pStat; let rs ← pStat
+  let x ← pRatArr cx; let y ← pRatArr cx
+  let infeasFail ← pBool
+  let bfail ← pBool; let bstatus ← pNat; let getFail ← pBool
+  let x2 ← pRatArr cx; let y2 ← pRatArr cx
+  pure { solveFail, fstatus, iter, basis := (cs, rs), x, y, infeasFail,
+         bstat := { fail := bfail, status := bstatus, getFail, x2, y2 } }
+
+def fmtOpt (cx : Ctx) (key : String) : Option (Array Rat) → String
+  | none => key ++ " untouched"
+  | some a => fmtArr cx key a
 
 /-- one protocol line ↦ answer lines (without the terminating ".") -/
 def answer (cx : Ctx) (toks : List String) : Ctx × List String :=
@@ -27,6 +45,20 @@ def answer (cx : Ctx) (toks : List String) : Ctx × List String :=
       let P ← pILP cx
       let ds ← pRatArr cx
       pure [s!"rv {if infeasibleTest P cx.pinf cx.ninf ds then 1 else 0}"]).run' rest
+    (cx, r.getD ["bad-op"])
+  | "solve" :: rest =>
+    let r : Option (List String) := (do
+      let P ← pILP cx
+      let dbl ← pStage cx
+      let n ← pNat
+      let rungs ← pMany n (pStage cx)
+      let o := solve P cx.pinf cx.ninf dbl rungs.toList
+      let bs := match o.basis with
+        | none => "basis none"
+        | some b => s!"basis {fmtStat b.1} {fmtStat b.2}"
+      if o.rval != 0 then pure ["rval 1", s!"stages {o.stagesUsed}"]
+      else pure ["rval 0", s!"status {o.status}", fmtOpt cx "xout" o.xOut, fmtOpt cx "yout" o.yOut, bs,
+                 s!"stages {o.stagesUsed}"]).run' rest
     (cx, r.getD ["bad-op"])
   | "tointernal" :: rest =>
     let r : Option (List String) := (do
